@@ -85,7 +85,7 @@ int main(int argc, char** argv) {
       vh::Rng pr(ps);
       // below and above the executor's minimum window (MinDelta = 1280) so that windowing is exercised in free runs
       int nInit = ctl ? 2 + (int)pr.below(5) : (p % 3 == 2 ? 1500 + (int)pr.below(600) : 3 + (int)pr.below(80));
-      fe::genProgram(prog, pr, nInit, 1 + (int)pr.below(ctl ? 3 : 5), ctl ? 2 : 2, 2, false, false, 0);
+      fe::genProgram(prog, pr, nInit, nInit > 500 ? 60 + (int)pr.below(60) : 1 + (int)pr.below(ctl ? 3 : 5), nInit > 500 ? 1 : 2, 2, false, false, 0);
       for (int r = 0; r < runs; ++r) {
         fe::RunCfg rc;
         rc.wlname = variant ? "Deterministic<det_id>" : "Deterministic";
